@@ -43,17 +43,19 @@ def main():
             status = "ok"
             if errs:
                 status = "ANALYSER-ERROR %s" % errs
+            elif benign and fired and meta.get("expected_alarm"):
+                status = "ok(known-imprecision)"
             elif benign and fired:
                 status = "FALSE-ALARM"
             elif not benign and meta.get("caught_by_own_property_check", True) and own not in fired:
                 status = "MISSED"
-            if status != "ok":
+            if not status.startswith("ok"):
                 bad += 1
             extra = ""
             if all_props and set(fired) != set(was):
                 extra = " (recorded: %s)" % was
             print("%-12s %-14s fired=%s%s" % (d, status, fired, extra))
-            if status != "ok":
+            if not status.startswith("ok"):
                 for p in fired + errs:
                     print("      ", p, res[p]["keys"][:4], res[p]["out"][-300:])
             sys.stdout.flush()
